@@ -6,6 +6,10 @@ import re
 from harness import common
 from harness.impl import c03 as I
 
+# modules whose constructors must all expand list arguments, whatever their body looks like (law oracle only
+# when the body is not a direct delegation)
+LAW_ONLY_MODULES = ('line', 'oscillators', 'noise')
+SPREAD_PARAMS = ('array', 'default', 'list', 'lst', 'specs', 'specifications')   # spread into the unit's inputs by design
 CHAN_PARAMS = {'channels', 'num_channels', 'numchans', 'n_channels', 'num_chans'}
 STR_VOCAB = ['minmax', 'min', 'max', 'x']
 NUMS = [0, 0, 1, -1, 0.5, 2, 3, 0.25, 440, 5, -0.5, 8, 0.125, 100]
@@ -39,7 +43,10 @@ def direct_table(repo):
                     # the sweep for the law oracle (no Lean row: the tie is skipped)
                     bases = [getattr(b, 'id', getattr(b, 'attr', None)) for b in cls.bases]
                     a = fn.args
-                    if f.stem == 'inout' and 'AbstractIn' in bases and not (a.vararg or a.kwarg or a.kwonlyargs):
+                    if ((f.stem == 'inout' and 'AbstractIn' in bases) or
+                            (f.stem in LAW_ONLY_MODULES and _ends_in_multi_new(fn)
+                             and not any(x.arg in SPREAD_PARAMS for x in a.args))) \
+                            and not (a.vararg or a.kwarg or a.kwonlyargs):
                         names = [x.arg for x in a.args][1:]
                         nreq = len(names) - len(a.defaults)
                         entry = {'params': [{'name': n, 'req': True} if i < nreq else {'name': n, 'default': 0}
@@ -61,6 +68,15 @@ def direct_table(repo):
                             out.append(dict(e, module=f.stem, cls=cname, method=meth, defined_in=anc))
                         break
     return out, not_direct, errors
+
+
+def _ends_in_multi_new(fn):
+    """the constructor still returns `cls._multi_new(<anything>)`: a real unit built by the generic expansion"""
+    last = fn.body[-1]
+    if isinstance(last, ast.Return) and isinstance(last.value, ast.Call):
+        fu = last.value.func
+        return isinstance(fu, ast.Attribute) and fu.attr == '_multi_new' and getattr(fu.value, 'id', None) == 'cls'
+    return False
 
 
 def _direct_entry(fn):
@@ -183,6 +199,8 @@ def strip_kinds(t):
 
 
 def has_empty(a):
+    if isinstance(a, dict) and 'cw' in a:
+        return has_empty({'c': I.items(a)})
     if isinstance(a, dict):
         for k in ('l', 'c', 't'):
             if k in a:
@@ -191,6 +209,8 @@ def has_empty(a):
 
 
 def tup_to_list(a):
+    if isinstance(a, dict) and 'cw' in a:
+        return tup_to_list({'c': I.items(a)})
     if isinstance(a, dict):
         for k in ('l', 'c', 't'):
             if k in a:
@@ -306,6 +326,9 @@ class Check(common.Check):
                 xs.append(self.g_tuple(rng, npre))
             else:
                 xs.append(self.g_scalar(rng, npre))
+        if tuples and rng.random() < 0.06:
+            # a channel list constructed directly from ONE value: a tuple / scalar is one channel
+            return {'cw': rng.choice([self.g_tuple(rng, npre), self.g_tuple(rng, npre), self.g_scalar(rng, npre)])}
         return {rng.choice(['l', 'l', 'c']): xs}
 
     def g_tuple(self, rng, npre):
@@ -335,7 +358,7 @@ class Check(common.Check):
         malformed = rng.random() < 0.08
         args = []
         for p in ps[:n]:
-            if p['name'] == 'default' and e['module'] == 'inout':
+            if (p['name'] == 'default' and e['module'] == 'inout') or (e.get('family') and p['name'] in SPREAD_PARAMS):
                 args.append(self.g_scalar(rng, len(pre)))      # LocalIn's default list is spread by design
             elif p['name'] == 'bus' and rng.random() < 0.5:
                 args.append({rng.choice('lc'): [rng.choice([0, 2, 10, 12, 16]) for _ in range(rng.randint(1, 4))]})
@@ -486,7 +509,7 @@ class Check(common.Check):
                 cases.append(self.gen_ctor(rng, table[i]))
         # the bus input/output family: several list-valued bus / channels cases per constructor
         for e in table:
-            if e['module'] == 'inout':
+            if e['module'] == 'inout' or e.get('family'):
                 for _ in range(6):
                     cases.append(self.gen_ctor(rng, e))
         # every ChannelList convenience method, every parameter, several times
@@ -741,7 +764,7 @@ class Check(common.Check):
                 if zero(x):
                     res.append({'z': me})
                 elif I.is_list(x):
-                    res.append({('c' if 'c' in x else 'l'): rz(I.items(x))})
+                    res.append({('c' if ('c' in x or 'cw' in x) else 'l'): rz(I.items(x))})
                 else:
                     res.append(x)
             return res
